@@ -854,6 +854,8 @@ def eval_dyad_reshape(a, b, backend):
 
     """
     np_backend = backend.np
+    if not np_backend.isarray(a) and a == 0:
+        return b  # 0:^x is the identity, also for a character
     j = isinstance(b, str) and not isinstance(b, KGSym)
     b = backend.str_to_chr_arr(b) if j else b
     if np_backend.isarray(a):
